@@ -35,7 +35,7 @@ ENGINE = "sansio"
 TECHNIQUE = "constructed certificate matrix with ground truth by construction; real OpenSSL peers in memory"
 BUDGET = {"quick": (480, 18), "thorough": (40_000, 200)}
 WORKERS = {"quick": 4, "thorough": 16}
-REQUIRED = ["accept_when_expected", "reject_when_expected", "failure_signalled", "no_appdata_on_reject", "appdata_delivered", "insecure_waives", "foreign_anchor_vs_trust_config", "hook_fault_cells"]
+REQUIRED = ["accept_when_expected", "reject_when_expected", "failure_signalled", "no_appdata_on_reject", "appdata_delivered", "insecure_waives", "foreign_anchor_vs_trust_config", "hook_fault_cells", "quic_cells", "quic_sni_none_on_entry"]
 RULE = (
     "cell = (leaf class x identity form x identity source x trust configuration x ssl_insecure); leaf classes: SAN exact / "
     "among many / other name / left-most wildcard / wildcard spanning two labels / partial wildcards / inner wildcard / CN only / "
@@ -48,7 +48,9 @@ RULE = (
     "unknown CA, self-signed; plus hook-fault cells: an SNI set by an addon that is empty / has a 64-byte or empty label / a NUL / "
     "non-IDNA characters, so that the real tls_start_server hook (dispatched through AddonManager.trigger, exceptions swallowed "
     "as in production) fails after creating the SSL object, crossed with certificates that match / do not match the server "
-    "address. The matrix (complete cross of class x identity form x source x ssl_insecure under the CA-file "
+    "address; plus a QUIC leg: real ServerQuicLayer + TlsConfig.quic_start_server (same dispatch) against an in-process "
+    "aioquic server, SNI preset vs. None on entry (derived by the hook from the address or the client's SNI) x matching / other "
+    "name / wildcard / CN-only / expired / other CA / certifi stand-in / intermediate classes x ssl_insecure. The matrix (complete cross of class x identity form x source x ssl_insecure under the CA-file "
     "configuration, class x identity form under every other trust configuration) "
     "is enumerated once with canonical names (both tiers), further cases repeat random cells with random labels, "
     "validity windows, TLS 1.2/1.3 peers, lazy/eager connection flow and random segmentation of the server flight. "
@@ -135,7 +137,7 @@ def full_product():
         for src in SOURCES
         for trust in TRUSTS
         for insecure in (False, True)
-    ] + fault_cells() * 4
+    ] + fault_cells() * 4 + quic_cells() * 2
 
 
 def fault_cells():
@@ -145,6 +147,23 @@ def fault_cells():
         for cls in (FAULT_IP_CLASSES if kind == "ip" else FAULT_DNS_CLASSES)
         for trust in ("cafile", "cadir")
     ]
+
+
+QUIC_MODES = ["quic:preset", "quic:address", "quic:client.sni"]  # server.sni set before the hook / None on entry
+QUIC_DNS_CLASSES = ["san-exact", "san-among-many", "san-other", "wildcard-leftmost", "wildcard-two-labels", "cn-only", "expired", "other-root",
+                    "certifi-root", "missing-intermediate", "with-intermediate"]
+QUIC_IP_CLASSES = ["ipsan-exact", "ipsan-other", "ip-as-dnsname", "ipsan-other-root"]
+
+
+def quic_cells():
+    """QUIC leg: real ServerQuicLayer + TlsConfig.quic_start_server against an in-process aioquic server."""
+    cells = []
+    for idf in ("dns", "upper", "idn-a", "ipv4", "ipv6"):
+        for cls in (QUIC_IP_CLASSES if idf in ("ipv4", "ipv6") else QUIC_DNS_CLASSES):
+            for mode in QUIC_MODES:
+                for trust, insecure in (("cafile", False), ("cafile", True), ("default", False), ("cadir", False)):
+                    cells.append((cls, idf, mode, trust, insecure))
+    return cells
 
 
 def matrix():
@@ -166,7 +185,7 @@ def matrix():
                 cells.append((cls, idf, SOURCES[n % 3], trust, False))
                 if trust == "default":
                     cells.append((cls, idf, SOURCES[(n + 1) % 3], trust, True))
-    return cells + fault_cells()
+    return cells + fault_cells() + quic_cells()
 
 
 def rl(r, n=None):
@@ -270,7 +289,7 @@ def leaf_for(pki: Pki, cls, canon, r=None):
     return [leaf, *extra], sans, cn
 
 
-def expected(cls, trust, insecure, idf=None):
+def expected(cls, trust, insecure, idf=None, src=None):
     """True: must be accepted; False: must be rejected; None: no requirement (hook failed part-way but the certificate
     would have been fine for the address: failing closed and accepting are both within the statement)."""
     issuer, chain, time, names_ok = (IP_CLASSES if cls in IP_CLASSES else DNS_CLASSES)[cls]
@@ -282,6 +301,10 @@ def expected(cls, trust, insecure, idf=None):
         return None if good else False
     if insecure:
         return True
+    if src is not None and src.startswith("quic:") and idf == "idn-a" and cls == "wildcard-leftmost":
+        # RFC 6125 6.4.3 leaves wildcard matching against an A-label left-most label to the implementation; aioquic's
+        # matcher (service_identity) declines it, OpenSSL allows it: ambiguous cell, no requirement
+        return None if expected(cls, trust, False) else False
     anchor = {"root_a": "A", "int_a": "A", "int_a_expired": "A", "root_b": "B", "root_c": "C", "root_d": "D", "self": None}[issuer]
     trusted = anchor in TRUST_ANCHORS[trust]
     chain_ok = issuer in ("root_a", "root_b", "root_c", "root_d") or (issuer == "int_a" and "int_a" in chain)
@@ -398,6 +421,8 @@ def state():
 def run_cell(cell, r, canonical):
     """Execute one cell. -> dict with outcome fields (no judgement here)."""
     cls, idf, src, trust, insecure = cell
+    if src.startswith("quic:"):
+        return run_quic_cell(cell, r, canonical)
     st = state()
     pki, ta, tctx = st["pki"], st["ta"], st["tctx"]
     ident, canon = identity(idf, None if canonical else r)
@@ -516,14 +541,172 @@ def run_cell(cell, r, canonical):
     return o
 
 
+class QuicPeer:
+    """In-process aioquic server presenting the cell's chain (certificate objects handed over directly)."""
+
+    def __init__(self, certs, key, clock):
+        from aioquic.h3.connection import H3_ALPN
+        from aioquic.quic.configuration import QuicConfiguration
+
+        self.clock = clock
+        self.cfg = QuicConfiguration(is_client=False, alpn_protocols=list(H3_ALPN))
+        self.cfg.certificate = certs[0]
+        self.cfg.certificate_chain = list(certs[1:])
+        self.cfg.private_key = key
+        self.quic = None
+        self.handshaken = False
+        self.sni_seen = "<no hello>"
+
+    def write(self, data: bytes):
+        from aioquic.buffer import Buffer
+        from aioquic.quic import events as qe
+        from aioquic.quic.connection import QuicConnection
+        from aioquic.quic.packet import pull_quic_header
+
+        if self.quic is None:
+            header = pull_quic_header(Buffer(data=data), host_cid_length=8)
+            self.quic = QuicConnection(configuration=self.cfg, original_destination_connection_id=header.destination_cid)
+        self.quic.receive_datagram(data, ("198.51.100.1", 4433), self.clock())
+        while ev := self.quic.next_event():
+            if isinstance(ev, qe.HandshakeCompleted):
+                self.handshaken = True
+
+    def read(self):
+        if self.quic is None:
+            return []
+        return [d for d, _ in self.quic.datagrams_to_send(self.clock())]
+
+
+def run_quic_cell(cell, r, canonical):
+    from mitmproxy.proxy.layers import quic as mquic
+    from mitmproxy.proxy.mode_specs import ProxyMode
+
+    cls, idf, mode, trust, insecure = cell
+    st = state()
+    pki, ta, tctx = st["pki"], st["ta"], st["tctx"]
+    if not st.get("quiet_quic"):
+        logging.getLogger("quic").disabled = True  # aioquic logs the expected verification failures with tracebacks
+        st["quiet_quic"] = True
+    ident, canon = identity(idf, None if canonical else r)
+    certs, sans, cn = leaf_for(pki, cls, canon, None if canonical else r)
+    tctx.options.update(
+        ssl_insecure=insecure,
+        ssl_verify_upstream_trusted_ca={"cafile": str(pki.cafile_a), "cafile-b": str(pki.cafile_b), "file+dir": str(pki.cafile_a)}.get(trust),
+        ssl_verify_upstream_trusted_confdir={"cadir": str(pki.cadir_a), "file+dir": str(pki.cadir_d)}.get(trust),
+    )
+    now = [1000.0]
+    clock = lambda: now[0]  # noqa: E731
+    client = connection.Client(
+        peername=("198.51.100.7", 51234), sockname=("127.0.0.1", 8080), timestamp_start=1.0, state=connection.ConnectionState.OPEN,
+        transport_protocol="udp", proxy_mode=ProxyMode.parse("reverse:quic://upstream.example.test"),
+    )
+    ctx = context.Context(client, tctx.options)
+    srv = ctx.server
+    if mode == "quic:preset":
+        srv.address = ("203.0.113.9", 443)
+        srv.sni = ident
+    elif mode == "quic:client.sni":
+        srv.address = ("decoy.example.test", 443)
+        client.sni = ident  # server.sni is None on entry: quic_start_server derives it from the client's SNI
+    else:
+        srv.address = (ident, 443)  # server.sni is None on entry: quic_start_server derives it from the address
+    srv.peername = ("192.0.2.1", 443)
+    srv.transport_protocol = "udp"
+    srv.state = connection.ConnectionState.OPEN
+    srv.timestamp_start = 1.0
+    peer = QuicPeer(certs, pki.leaf_key, clock)
+    top = mquic.ServerQuicLayer(ctx, time=clock)
+    top.child_layer = Probe(ctx, lazy=False)
+    top.child_layer.quic_sink = True
+    o = {"established": 0, "failed": 0, "closed": 0, "start_hooks": 0, "logs": [], "to_peer": 0, "steps": 0, "addon_errors": [], "failed_err": None}
+    wakeups = []
+    pending = [events.Start()]
+
+    def pump():
+        while pending:
+            e = pending.pop(0)
+            for cmd in top.handle_event(e):
+                o["steps"] += 1
+                if o["steps"] > 5000:
+                    raise RuntimeError("driver step budget exceeded")
+                if isinstance(cmd, mquic.QuicStartServerHook):
+                    o["start_hooks"] += 1
+                    cap = _LogCapture()
+                    logging.getLogger("mitmproxy.addonmanager").addHandler(cap)
+                    try:
+                        tctx.master.addons.trigger(cmd)  # production dispatch of the real TlsConfig.quic_start_server
+                    finally:
+                        logging.getLogger("mitmproxy.addonmanager").removeHandler(cap)
+                    o["addon_errors"].extend(cap.msgs)
+                    pending.append(events.HookCompleted(cmd))
+                elif isinstance(cmd, tls.TlsEstablishedServerHook):
+                    o["established"] += 1
+                    pending.append(events.HookCompleted(cmd))
+                elif isinstance(cmd, tls.TlsFailedServerHook):
+                    o["failed"] += 1
+                    o["failed_err"] = cmd.data.conn.error
+                    pending.append(events.HookCompleted(cmd))
+                elif isinstance(cmd, commands.StartHook):
+                    pending.append(events.HookCompleted(cmd))
+                elif isinstance(cmd, commands.SendData):
+                    if cmd.connection is srv and not o["closed"]:
+                        o["to_peer"] += len(cmd.data)
+                        peer.write(cmd.data)
+                elif isinstance(cmd, commands.RequestWakeup):
+                    wakeups.append(cmd)
+                elif isinstance(cmd, commands.CloseConnection):
+                    if cmd.connection is srv:
+                        srv.state = connection.ConnectionState.CLOSED
+                        o["closed"] += 1
+                elif isinstance(cmd, commands.Log):
+                    o["logs"].append(cmd.message[:160])
+
+    pump()
+    for _ in range(60):
+        if o["established"] or o["failed"]:
+            break
+        now[0] += 0.05
+        dgrams = peer.read()
+        if dgrams:
+            for d in dgrams:
+                pending.append(events.DataReceived(srv, d))
+            pump()
+        elif wakeups:
+            now[0] += 60  # nothing in flight: let timers fire (aioquic reports a termination on the next timer)
+            pending.append(events.Wakeup(wakeups.pop(0)))
+            pump()
+        else:
+            break
+    # give the peer the client's last flight (Finished) so that its view of the handshake is final
+    for _ in range(3):
+        now[0] += 0.05
+        for d in peer.read():
+            if srv.state is not connection.ConnectionState.CLOSED:
+                pending.append(events.DataReceived(srv, d))
+        pump()
+    o.update(
+        ident=ident, canon=canon, sans=sans, cn=cn, lazy=False, max13=True, completed=[None] if o["established"] else [srv.error], sent=0,
+        peer_plain=b"", peer_handshaken=peer.handshaken, peer_error=None, srv_error=srv.error, srv_tls=srv.tls_established, srv_sni=srv.sni,
+        tunnel_state=top.tunnel_state.name, tls_version=srv.tls_version, stalled_until_close=False, quic=True,
+    )
+    return o
+
+
 def classify(cell, kind):
     """Mechanism from the cell coordinates only."""
+    cls, idf, src, trust, insecure = cell
+    if kind == "raises" and src.startswith("quic:") and cls == "ip-as-dnsname" and not insecure:
+        return "quic-upstream-cert-dnsname-is-ip-literal"
     return None
+
+
+def mode_none_on_entry(src):
+    return src in ("quic:address", "quic:client.sni")
 
 
 def judge(ctx, cell, o):
     cls, idf, src, trust, insecure = cell
-    exp = expected(cls, trust, insecure, idf)
+    exp = expected(cls, trust, insecure, idf, src)
     if cls in ("certifi-root", "ipsan-certifi-root", "dir-only-root") and not insecure:
         ctx.count("foreign_anchor_vs_trust_config")  # public-bundle / directory-only CA against each trust configuration
     w = {
@@ -539,6 +722,11 @@ def judge(ctx, cell, o):
     elif o["addon_errors"]:
         ctx.violation("tls_start_server-raises", w, classify(cell, "hook-raises"))
         return "hook-raises"
+    quic = src.startswith("quic:")
+    if quic:
+        ctx.count("quic_cells")
+        if mode_none_on_entry(src):
+            ctx.count("quic_sni_none_on_entry")
     ok = o["completed"] == [None] and o["established"] == 1 and o["srv_tls"]
     if exp is None:
         ctx.count("no_requirement_cells")
@@ -553,7 +741,7 @@ def judge(ctx, cell, o):
             ctx.violation("rejects-acceptable-server" if not insecure else "insecure-handshake-fails", w, classify(cell, "rejects"))
             return "reject"
         ctx.count("appdata_delivered")
-        if o["peer_plain"] != TAG or o["failed"] != 0 or not o["peer_handshaken"]:
+        if (o["peer_plain"] != TAG and not quic) or o["failed"] != 0 or not o["peer_handshaken"]:
             ctx.violation("accepted-but-data-or-hooks-wrong", w, classify(cell, "accept-inconsistent"))
         return "accept"
     # must be rejected
@@ -563,6 +751,8 @@ def judge(ctx, cell, o):
         ctx.violation("accepts-server-that-must-be-rejected", w, classify(cell, "accepts"))
         verdict = "accept"
     ctx.count("no_appdata_on_reject")
+    if quic and o["peer_handshaken"]:
+        ctx.violation("rejected-quic-server-saw-completed-handshake", w, classify(cell, "appdata"))
     if o["peer_plain"]:
         ctx.violation("application-data-reached-rejected-server", w, classify(cell, "appdata"))
     if verdict == "reject":
